@@ -9,7 +9,6 @@ import (
 
 	kruisev1alpha1 "github.com/openkruise/kruise-api/apps/v1alpha1"
 	appsv1 "k8s.io/api/apps/v1"
-	corev1 "k8s.io/api/core/v1"
 	"k8s.io/apimachinery/pkg/util/intstr"
 	"sigs.k8s.io/controller-runtime/pkg/client"
 
@@ -583,25 +582,44 @@ func (o *coreOracle) OnEnd(s *Sim) {
 	if s.Cfg.anyFault() && s.Cfg.FaultsStopAt == 0 {
 		return // liveness is only claimed once faults stop
 	}
-	if sc.V2Fails || !sc.AutoApprove || s.User.Disturbed {
-		return
-	}
 	ro := s.User.getRollout()
 	if ro == nil {
+		s.probe("c07.terminal-gone")
 		return
 	}
-	terminal := ro.Status.Phase == v1beta1.RolloutPhaseHealthy
-	if c := rutil.GetRolloutCondition(ro.Status, v1beta1.RolloutConditionSucceeded); terminal && (c == nil || c.Status != corev1.ConditionTrue) {
-		terminal = false
+	reason := progressingReason(ro)
+	switch ro.Status.Phase {
+	case v1beta1.RolloutPhaseHealthy, v1beta1.RolloutPhaseDisabled, v1beta1.RolloutPhaseInitial:
+		if ro.DeletionTimestamp == nil && ro.Spec.Disabled == (ro.Status.Phase == v1beta1.RolloutPhaseDisabled) {
+			s.probe("c07.terminal")
+			return
+		}
 	}
-	if terminal {
-		s.probe("c07.terminal")
+	// legitimately waiting for the user or for pods that cannot become ready
+	waiting := ""
+	sub := ro.Status.GetSubStatus()
+	switch {
+	case sc.V2Fails && s.User.Version != 1:
+		waiting = "new revision never becomes ready"
+	case ro.Spec.Strategy.Paused && ro.DeletionTimestamp == nil && !ro.Spec.Disabled:
+		waiting = "rollout paused by the user"
+	case ro.Status.Phase == v1beta1.RolloutPhaseProgressing && reason == v1alpha1.ProgressingReasonInRolling && sub != nil &&
+		sub.CurrentStepState == v1beta1.CanaryStepStatePaused && !sc.AutoApprove:
+		waiting = "manual approval"
+	}
+	for i := range sc.Events {
+		if !sc.Events[i].Done && sc.Events[i].After != "" && s.User.doneKinds[sc.Events[i].After] {
+			waiting = "user follow-up pending"
+		}
+	}
+	if waiting != "" {
+		s.probe("c07.waiting-for-user")
 		return
 	}
 	switch s.EndReason {
 	case "quiescent":
-		s.Violate("C07", "L1-lost-wakeup", "L1/"+sc.Family, s.Store.seq, "simulator is quiescent (no queued key, no armed timer, no undelivered event) but the rollout is not finished: %s", s.abstractState())
+		s.Violate("C07", "L1-lost-wakeup", "L1/"+sc.Family+"/"+string(ro.Status.Phase)+"/"+reason, s.Store.seq, "simulator is quiescent (no queued key, no armed timer, no undelivered event) but the rollout is not finished: %s", s.abstractState())
 	default:
-		s.Violate("C07", "L2-budget", "L2/"+sc.Family, s.Store.seq, "healthy rollout did not finish within the budget (%s after %d steps, %.0fs simulated): %s", s.EndReason, s.Steps, s.Elapsed().Seconds(), s.abstractState())
+		s.Violate("C07", "L2-budget", "L2/"+sc.Family+"/"+string(ro.Status.Phase)+"/"+reason, s.Store.seq, "rollout did not finish within the budget (%s after %d steps, %.0fs simulated): %s", s.EndReason, s.Steps, s.Elapsed().Seconds(), s.abstractState())
 	}
 }
